@@ -245,4 +245,33 @@ def WfInstr : Gen.Instr → Bool
   | .xori_ o => regOk o.rd && regOk o.rs && o.forward == default
 
 
+/-- the label lines `name:` that belong in front of instruction `k` (address `4k`) -/
+def labelLinesAt (entries : List (String × Word)) (k : Nat) : List Bytes :=
+  (entries.filter fun e => e.2.toNat == 4 * k).map fun e => unlatin1 e.1 ++ [0x3A]
+
+/-- the lines of the program from instruction `k` on -/
+def prettyFrom (entries : List (String × Word)) : Nat → List Gen.Instr → List Bytes
+  | k, [] => labelLinesAt entries k
+  | k, i :: r => labelLinesAt entries k ++ prettyInstr i :: prettyFrom entries (k + 1) r
+
+/-- canonical text of a program: each label on its own line in front of the instruction it
+names, one instruction per line -/
+def pretty (app : App) : Bytes := joinWith 0x0A (prettyFrom app.labels.entries 0 app.instrs)
+
+/-- a label name the three-line classifier reads back from the line `name:` -/
+def labelKeyOk (s : String) : Bool :=
+  let b := unlatin1 s
+  latin1 b == s && labelName (b ++ [0x3A]) == some b && !b.contains 0x0A
+
+def distinctKeys : List (String × Word) → Bool
+  | [] => true
+  | e :: r => !(r.map (·.1)).contains e.1 && distinctKeys r
+
+/-- a program the printer can print: printable instructions; every label a printable name, at
+an instruction boundary inside the program (or just behind it), defined once -/
+def WfApp (app : App) : Bool :=
+  app.instrs.all WfInstr &&
+  app.labels.entries.all (fun e => labelKeyOk e.1 && e.2.toNat % 4 == 0 && decide (e.2.toNat / 4 ≤ app.instrs.length)) &&
+  distinctKeys app.labels.entries
+
 end Model.Parser
